@@ -125,3 +125,44 @@ impl<'s> Fam<'s> for BytesB {
     type Other = BytesA;
     const NAME: &'static str = "BytesB";
 }
+
+// ---------------------------------------------------------------------------------------------
+// Hand-written `Logos` implementations over Deref-wrapped sources (the blanket `impl Source for T:
+// Deref`): the derive only produces `str` / `[u8]` sources, `Lexer::bump` must hold for all sources.
+
+macro_rules! manual_str {
+    ($name:ident, $src:ty) => {
+        #[derive(Debug, Clone, Copy, PartialEq)]
+        pub struct $name;
+        impl<'s> Logos<'s> for $name {
+            type Extras = ();
+            type Source = $src;
+            type Error = ();
+            fn lex(lex: &mut Lexer<'s, Self>) -> Option<Result<Self, ()>> {
+                let rem: &str = lex.remainder();
+                let c = rem.chars().next()?;
+                lex.bump(c.len_utf8());
+                Some(Ok($name))
+            }
+        }
+    };
+}
+manual_str!(ManualString, String);
+manual_str!(ManualBoxStr, Box<str>);
+manual_str!(ManualRcStr, std::rc::Rc<str>);
+
+#[derive(Debug, Clone, Copy, PartialEq)]
+pub struct ManualVec;
+impl<'s> Logos<'s> for ManualVec {
+    type Extras = ();
+    type Source = Vec<u8>;
+    type Error = ();
+    fn lex(lex: &mut Lexer<'s, Self>) -> Option<Result<Self, ()>> {
+        let rem: &[u8] = lex.remainder();
+        if rem.is_empty() {
+            return None;
+        }
+        lex.bump(1);
+        Some(Ok(ManualVec))
+    }
+}
